@@ -3,9 +3,9 @@ From Coq Require Import List Arith ZArith NArith Bool Lia.
 Import ListNotations.
 Require Import MayV.Rt.SchedModel MayV.Rt.SchedInv MayV.Rt.SchedTac MayV.Rt.SchedLoopModel MayV.Rt.SchedLoopBase.
 
-Ltac lsimp := cbn [base wpc evfd tmo dl slept now owed anon pre npop ncoll nsel coll0 ngrab mkl
-                   l_base l_wpc l_evfd l_tmo l_dl l_slept l_now l_owed l_anon l_pre l_npop l_ncoll l_nsel l_coll0 l_ngrab
-                   set_pc set_evfd grabbed] in *.
+Ltac lsimp := cbn [base wpc evfd tmo dl slept now owed anon pre npop ncoll nsel coll0 ngrab ntake mkl
+                   l_base l_wpc l_evfd l_tmo l_dl l_slept l_now l_owed l_anon l_pre l_npop l_ncoll l_nsel l_coll0 l_ngrab l_ntake
+                   set_pc set_evfd grabbed taken] in *.
 
 Ltac dmatch :=
   repeat match goal with |- context [match ?x with _ => _ end] => destruct x end.
@@ -15,9 +15,11 @@ Proof. unfold ctl_base. dmatch; reflexivity. Qed.
 
 Lemma base_grabbed l o : base (grabbed l o) = base l.
 Proof. destruct o; reflexivity. Qed.
+Lemma base_taken l o : base (taken l o) = base l.
+Proof. destruct o; reflexivity. Qed.
 
 Lemma base_ctl P l a s' : base (ctl P l a s') = s'.
-Proof. destruct a; unfold ctl; try apply base_ctl_base; dmatch; rewrite ?base_grabbed; reflexivity. Qed.
+Proof. destruct a; unfold ctl; try apply base_ctl_base; dmatch; rewrite ?base_grabbed, ?base_taken; reflexivity. Qed.
 
 (* (c) every action of the loop model is a SchedModel action on the coroutine state, or leaves it unchanged *)
 Lemma lstep_proj P l a l' : lstep P l a = Some l' ->
@@ -59,3 +61,171 @@ Proof.
   induction tr1 as [|a tr1 IH]; cbn [lruns app]; intros; [reflexivity|].
   destruct (lstep P l a); [apply IH | reflexivity].
 Qed.
+
+(* ------------------------------------------------------------------ no lost wake-up (push before eventfd write) *)
+(* control points from which worker w runs collect_global (to the empty bulk_pop) before it calls epoll_wait again *)
+Definition will_collect (P : params) (p : lpc) : bool :=
+  match p with
+  | PEvs true | PIo true | PRes (RIo true) | PCo (RIo true) => true
+  | PColl _ | PPut _ => true
+  | PRun | PRes RRun | PCo RRun | PStPut => work_steal P
+  | _ => false end.
+
+Definition wake_coming P l w : Prop :=
+  evfd l w = true \/ 0 < owed l w \/ 0 < anon l w \/ will_collect P (wpc l w) = true.
+Definition JInv P l := forall w, gq (base l) w <> [] -> wake_coming P l w.
+
+Lemma ctl_base_true P l b l0 : push_first P = true ->
+  let r := ctl_base P l b l0 in
+  wpc r = wpc l0 /\
+  evfd r = match wake_target (base l) b with Some k => upd (evfd l0) k true | None => evfd l0 end /\
+  owed r = (let o1 := match push_target (base l) b with
+                      | Some (QG k) => if is_anon b then owed l0 else inc (owed l0) k
+                      | _ => owed l0 end in
+            match wake_target (base l) b with Some k => dec o1 k | None => o1 end) /\
+  anon r = match push_target (base l) b with
+           | Some (QG k) => if is_anon b then inc (anon l0) k else anon l0
+           | _ => anon l0 end.
+Proof.
+  intro PF. unfold ctl_base. rewrite PF.
+  destruct (push_target (base l) b) as [[k1|t1]|]; destruct (is_anon b); destruct (wake_target (base l) b) as [k2|];
+    destruct (fetch_target (base l) b); lsimp; repeat split; reflexivity.
+Qed.
+
+Lemma upd_cases {X} (f : nat -> X) i v j : (j = i /\ upd f i v j = v) \/ (j <> i /\ upd f i v j = f j).
+Proof. destruct (Nat.eq_dec j i) as [->|N]; [left; split; [reflexivity | apply upd_eq] | right; split; [exact N | now apply upd_neq]]. Qed.
+
+Ltac updc := repeat match goal with
+  | |- context [upd ?f ?i ?v ?j] => let A := fresh in let B := fresh in destruct (upd_cases f i v j) as [[A B]|[A B]]; rewrite B; clear B; try subst
+  end.
+
+Lemma ctl_base_J P l b l0 k : push_first P = true ->
+   (evfd l0 k = true \/ 0 < owed l0 k \/ 0 < anon l0 k \/ push_target (base l) b = Some (QG k)) ->
+   (evfd (ctl_base P l b l0) k = true \/ 0 < owed (ctl_base P l b l0) k \/ 0 < anon (ctl_base P l b l0) k).
+Proof.
+  intros PF H. destruct (ctl_base_true P l b l0 PF) as (_ & E & O & A). rewrite E, O, A. clear E O A.
+  destruct (wake_target (base l) b) as [k2|].
+  - destruct (Nat.eq_dec k k2) as [->|N]; [left; apply upd_eq|]. rewrite upd_neq by exact N.
+    unfold dec. rewrite upd_neq by exact N.
+    destruct H as [H|[H|[H|H]]]; [auto | | | rewrite H ].
+    + right; left. destruct (push_target (base l) b) as [[k1|?]|]; try destruct (is_anon b); unfold inc; updc; lia.
+    + right; right. destruct (push_target (base l) b) as [[k1|?]|]; try destruct (is_anon b); unfold inc; updc; lia.
+    + destruct (is_anon b); unfold inc; rewrite upd_eq; [right; right | right; left]; lia.
+  - destruct H as [H|[H|[H|H]]]; [auto | | | rewrite H ].
+    + right; left. destruct (push_target (base l) b) as [[k1|?]|]; try destruct (is_anon b); unfold inc; updc; lia.
+    + right; right. destruct (push_target (base l) b) as [[k1|?]|]; try destruct (is_anon b); unfold inc; updc; lia.
+    + destruct (is_anon b); unfold inc; rewrite upd_eq; [right; right | right; left]; lia.
+Qed.
+
+Ltac gsplit G :=
+  repeat match type of G with
+  | _ && _ = true => let G1 := fresh "G" in let G2 := fresh "G" in apply andb_true_iff in G; destruct G as [G1 G2]; try gsplit G1; try gsplit G2
+  end.
+
+(* invert `lstep P l a = Some l'` for a concrete constructor a *)
+Ltac linv H :=
+  unfold lstep in H;
+  match type of H with (if ?g then _ else _) = Some _ => let G := fresh "G" in destruct g eqn:G; [|discriminate H]; cbn [guard] in G; gsplit G end;
+  cbn [proj] in H.
+
+
+Ltac pcs G :=
+  repeat match type of G with
+  | context [match wpc ?l ?w with _ => _ end] => let E := fresh "E" in destruct (wpc l w) eqn:E; try discriminate G
+  | context [match ?e with true => _ | false => _ end] => is_var e; destruct e; try discriminate G
+  | context [match ?r with RRun => _ | _ => _ end] => is_var r; destruct r; try discriminate G
+  end.
+
+Lemma wc_frame P l l' w : evfd l' w = evfd l w -> owed l' w = owed l w -> anon l' w = anon l w ->
+  (will_collect P (wpc l w) = true -> will_collect P (wpc l' w) = true) -> wake_coming P l w -> wake_coming P l' w.
+Proof. unfold wake_coming. intros -> -> -> W [A|[A|[A|A]]]; auto. Qed.
+
+
+Lemma lstep_gq P l a l' : lstep P l a = Some l' -> (forall b, a <> LBase b) -> forall k,
+  gq (base l') k = gq (base l) k \/ (a = LBulkGrab k /\ exists c, gq (base l) k = c :: gq (base l') k).
+Proof.
+  intros H NB k. apply lstep_proj in H. destruct a; cbn [proj] in H; try (rewrite H; left; reflexivity).
+  - exfalso. eapply NB; reflexivity.
+  - apply step_takeslot in H. destruct H as (_ & _ & -> & _). now left.
+  - apply step_grab in H. destruct H as (_ & c & A & _ & B & _). destruct (Nat.eq_dec k w) as [->|N].
+    + right. split; [reflexivity|]. exists c. exact A.
+    + left. apply (B (QG k)). congruence.
+  - apply step_put in H. destruct H as (_ & c & r & _ & _ & _ & _ & -> & _). now left.
+  - destruct (lq (base l) w); [rewrite H; now left|]. apply step_grab in H. destruct H as (_ & c & _ & _ & B & _).
+    left. apply (B (QG k)). congruence.
+  - destruct (hand (base l) w); [rewrite H; now left|].
+    destruct (step_queues_nongrab _ _ _ H (fun t q => ltac:(discriminate)) (QG k)) as [A|[A _]]; [now left | discriminate A].
+  - destruct (wpc l w); try (rewrite H; now left). apply step_grab in H. destruct H as (_ & c & _ & _ & B & _).
+    left. apply (B (QG k)). congruence.
+  - apply step_takeslot in H. destruct H as (_ & _ & -> & _). now left.
+Qed.
+
+Lemma ctl_other P l a s' w0 : (forall b, a <> LBase b) -> actor a <> Some w0 ->
+  (forall k, a <> LAnonWake k) -> (forall k, a <> LAnonPre k) ->
+  wpc (ctl P l a s') w0 = wpc l w0 /\ evfd (ctl P l a s') w0 = evfd l w0 /\
+  owed (ctl P l a s') w0 = owed l w0 /\ anon (ctl P l a s') w0 = anon l w0.
+Proof.
+  intros NB NA N1 N2. destruct a; cbn [actor] in NA; try (exfalso; eapply NB; reflexivity);
+    try (exfalso; eapply N1; reflexivity); try (exfalso; eapply N2; reflexivity);
+    unfold ctl; dmatch; unfold grabbed, taken; dmatch; lsimp; rewrite ?upd_neq by congruence; repeat split; reflexivity.
+Qed.
+
+
+Lemma ctl_actor P l a s' w : actor a = Some w -> guard P l a = true ->
+  owed (ctl P l a s') w = owed l w /\ anon (ctl P l a s') w = anon l w /\
+  (will_collect P (wpc l w) = true ->
+     will_collect P (wpc (ctl P l a s') w) = true \/ (a = LBulkEnd w /\ gq (base l) w = [])) /\
+  (evfd (ctl P l a s') w = evfd l w \/ will_collect P (wpc (ctl P l a s') w) = true).
+Proof.
+  intros A G. destruct a; cbn [actor] in A; try discriminate A; inversion A; subst; clear A; cbn [guard] in G; gsplit G.
+  all: match goal with G : _ |- _ => progress pcs G end.
+  all: unfold ctl; try match goal with E : wpc _ _ = _ |- _ => rewrite E end.
+  all: try (dmatch; unfold grabbed, taken; dmatch; lsimp; rewrite ?upd_eq; rewrite ?E; cbn [will_collect]; repeat split; try reflexivity;
+            try (intro X; try discriminate X); auto; fail).
+  - destruct (hand (base l) w); [destruct (gq (base l) w); [|discriminate G1]|]; destruct r; lsimp; rewrite ?upd_eq;
+      cbn [will_collect]; repeat split; auto.
+  - destruct (lq (base l) w); destruct (work_steal P) eqn:WS; lsimp; rewrite ?upd_eq; cbn [will_collect]; rewrite ?WS;
+      repeat split; auto; intro X; discriminate X.
+Qed.
+
+Lemma jinv_step P l a l' : push_first P = true -> JInv P l -> lstep P l a = Some l' -> JInv P l'.
+Proof.
+  intros PF J H.
+  assert (OTH : (forall b, a <> LBase b) -> (forall k, a <> LAnonWake k) -> (forall k, a <> LAnonPre k) ->
+                forall w0, actor a <> Some w0 -> gq (base l') w0 <> [] -> wake_coming P l' w0).
+  { intros NB N1 N2 w0 NA NE. destruct (lstep_gq _ _ _ _ H NB w0) as [A|[-> _]]; [|cbn in NA; congruence].
+    rewrite A in NE. specialize (J w0 NE). unfold lstep in H. destruct (guard P l a); [|discriminate].
+    assert (exists s', l' = ctl P l a s') as [s' ->].
+    { destruct (proj l a); [destruct (step (base l) a0); [|discriminate]|]; inversion H; eauto. }
+    destruct (ctl_other P l a s' w0 NB NA N1 N2) as (A1 & A2 & A3 & A4).
+    eapply wc_frame; eauto. now rewrite A1. }
+  assert (ACT : forall w, actor a = Some w -> gq (base l') w <> [] -> wake_coming P l' w).
+  { intros w A NE.
+    assert (NB : forall b, a <> LBase b) by (intros b ->; discriminate A).
+    assert (GQ : gq (base l) w <> []).
+    { destruct (lstep_gq _ _ _ _ H NB w) as [B|[_ [c B]]]; [now rewrite <- B | rewrite B; discriminate]. }
+    specialize (J w GQ). unfold lstep in H. destruct (guard P l a) eqn:G; [|discriminate].
+    assert (exists s', l' = ctl P l a s') as [s' ->].
+    { destruct (proj l a); [destruct (step (base l) a0); [|discriminate]|]; inversion H; eauto. }
+    destruct (ctl_actor P l a s' w A G) as (A1 & A2 & A3 & A4). unfold wake_coming in *. rewrite A1, A2.
+    destruct J as [J|[J|[J|J]]]; auto.
+    - destruct A4 as [A4|A4]; [left; congruence | auto].
+    - destruct (A3 J) as [B|[_ B]]; [auto | contradiction]. }
+  intros w0 NE. destruct a.
+  all: try (destruct (Nat.eq_dec w0 w) as [->|N]; [apply ACT; [reflexivity | exact NE] | apply OTH; try discriminate; [cbn; congruence | exact NE]]).
+  - (* LBase *) linv H. destruct (step (base l) a) as [s0|] eqn:S; [|discriminate]. inversion H; subst; clear H.
+    rewrite base_ctl_base in NE. cbn [base l_base mkl] in NE.
+    assert (NG : forall t q, a <> Grab t q) by (intros t q ->; discriminate G).
+    destruct (ctl_base_true P l a (l_base l s0) PF) as (W & _).
+    pose proof (ctl_base_J P l a (l_base l s0) w0 PF) as CJ. lsimp.
+    unfold wake_coming. rewrite W. lsimp.
+    destruct (step_queues_nongrab _ _ _ S NG (QG w0)) as [A|[A _]]; cbn [getq] in A.
+    + rewrite A in NE. destruct (J w0 NE) as [B|[B|[B|B]]]; [| | | auto];
+        (destruct CJ as [C|[C|C]]; [auto | auto | auto | auto]).
+    + destruct CJ as [C|[C|C]]; auto.
+  - (* LAnonWake *) linv H. inversion H; subst; clear H. unfold ctl, wake_coming in *. lsimp. unfold set_evfd. lsimp.
+    destruct (Nat.eq_dec w0 k) as [->|N]; [left; apply upd_eq|]. unfold dec. rewrite !upd_neq by exact N. apply J, NE.
+  - linv H. rewrite PF in G1. discriminate G1.
+  - linv H. inversion H; subst; clear H. unfold ctl, wake_coming in *. lsimp. apply J, NE.
+Qed.
+
